@@ -320,8 +320,8 @@ PROPS = {
         kani=[dict(harness='k_scanner_classes', klass='complete', schema=['u8'], family=None, target='Scanner::is_* byte classes'),
               dict(harness='k_unit_char_class', klass='complete', schema=['u8'], family=None, target='zinc number::is_unit_char'),
               dict(harness='k_u8_classes', klass='complete', schema=['u8'], family=None, target='u8::is_ascii_*')],
-        witness=['enum:zinc-escape', 'enum:zinc-spellings', 'enum:zinc-reference', 'enum:random-values'],
-        enums_thorough=['enum:random-values 40000'],
+        witness=['enum:zinc-escape', 'enum:zinc-spellings', 'enum:zinc-reference', 'enum:random-values', 'enum:random-spellings'],
+        enums_thorough=['enum:random-values 40000', 'enum:random-spellings 40000'],
         design_ref='DESIGN.md section 4, C04',
         level_text=('Proof, per token class, against the Project Haystack Zinc grammar (the oracle is the grammar, not the code): Verus '
                     'proves one clause per string escape letter of parse_str_escape (\\b U+0008, \\f U+000C, \\n, \\r, \\t, \\", \\\\, \\$) '
@@ -357,7 +357,10 @@ PROPS = {
                      'against the plain spelling of the same value; the bounded enumerator enum:zinc-reference hands the text written for 103 scalar and composite '
                      'values to an independent reader written from the grammar inside the replay crate -- strict about brackets, separators, quotes, parentheses and '
                      'the line structure of grids -- and demands the value back: this is what turns a failed writer obligation into a violation when the new '
-                     'spelling is not a sentence, and into undecided when it is another legal spelling); Dict is seen through its entry list in key order. The unit class tests `> 128`, i.e. excludes '
+                     'spelling is not a sentence, and into undecided when it is another legal spelling; enum:random-spellings is the converse: an independent writer '
+                     'spells seeded random values in a random legal spelling -- exponent and plain number forms, \\uXXXX escapes in either case, separators with and '
+                     'without spaces, trailing commas, marker tags with and without :M, LF and CRLF -- and the decoder must return the value, 1500 values per run and '
+                     '40 000 in the thorough tier); Dict is seen through its entry list in key order. The unit class tests `> 128`, i.e. excludes '
                      'byte 0x80 that the grammar admits -- harmless: no database unit contains it (C15 lemma).'),
         technique='contract-based deductive verification: Verus per-letter postconditions on the real body + Kani complete byte-class harnesses',
     ),
